@@ -80,9 +80,15 @@ int sbdf_convert_utf8_to_iso88591(char const* inp, char* out)
 		else if (ch >= 0xc0 && ch < 0xdf)
 		{
 			int uch = (ch & 0x1f) << 6;
-			ch = *inp++;
+			ch = *inp;
+			if ((ch & 0xc0) == 0x80)
+			{
+				/* only a continuation byte belongs to this sequence; anything else */
+				/* (the terminator included) is left for the next round */
+				++inp;
+			}
 			uch += ch & 0x3f;
-			if ((ch & 0xc0) != 0x80 || uch >= 0x100)
+			if ((ch & 0xc0) != 0x80 || uch < 0x80 || uch >= 0x100)
 			{
 				if (out)
 				{
